@@ -16,6 +16,37 @@ SORT_OPS = ("clear", "remove_fully", "rmtree")
 ENV_OPS = ("put", "append", "truncate", "del", "rmtree", "mkdir", "symlink", "cat", "stat", "dump")
 
 
+def direct_content_writes(events, op=""):
+    """C03: a file may appear under content-v2 only by rename of a temp file (or as a link_to symlink);
+    creating / writing / copying a file at a content path directly exposes partial data."""
+    out = []
+    for e in events:
+        t = e.split(" ")
+        kind = t[0]
+        if kind in ("open-create", "open-append-create", "write", "fallocate", "truncate", "mmap-write") and len(t) > 1 and "/content-v2/" in t[1]:
+            out.append(e)
+        elif kind == "copy" and len(t) > 2 and "/content-v2/" in t[2]:
+            out.append(e)
+        elif kind == "link" and len(t) > 2 and "/content-v2/" in t[2]:
+            out.append(e)
+        elif kind == "rename" and len(t) > 2 and "/content-v2/" in t[2] and "/tmp/" not in t[1]:
+            out.append(e)
+    return out
+
+
+def trace_monitor(r, ops, where=""):
+    fs_ = []
+    for i, ev in enumerate(r.events):
+        bad = direct_content_writes(ev)
+        if bad:
+            op = ops[i] if i < len(ops) else "?"
+            f = Failure("direct_content_write", i, f"{where}{op[:60]}: a content path is created/filled in place ({bad[0][:80]})",
+                        sig={"op": op.split(" ")[0], "event": bad[0].split(" ")[0]})
+            f.replay_text = "\n".join(ops) + "\n"
+            fs_.append(f)
+    return fs_
+
+
 def model_events(ann_ops):
     """Run the model with @trace on every op; returns (result lines without the suffix, events per op)."""
     out = E.run_model([o + " @trace" for o in ann_ops])
@@ -71,6 +102,8 @@ def leg_skeleton(progs, flavour, jobs=8):
             real = canon_events(op, r.events[i])
             # events between this op's end and the next op (drops of handles) belong to it too
             model = model_skeleton(op, mevs[i])
+            if i == 0:
+                failures += trace_monitor(r, p.ops)
             outside = [e for e in r.events[i] if e.startswith("OUTSIDE")]
             for e in outside:
                 f = Failure("outside_cache_dir", i, f"{op[:80]}: {e}", sig={"op": op.split(' ')[0]})
@@ -179,6 +212,7 @@ def leg_kill_sweep(cases, flavour, max_points=40, jobs=8):
                 continue
             fs_ = content_valid_monitor(il[0], where)
             fs_ += content_valid_monitor(il[-1], where + " (after a further write)")
+            fs_ += trace_monitor(r, case["setup"] + [case["victim"]], where + ": ")
             # old or new
             old, new = case.get("old"), case.get("new")
             for j in (1, 2):
@@ -259,6 +293,10 @@ FAULT_CALLS = ["mkdir", "openat", "write", "fallocate", "ftruncate", "renameat,r
 ERRNOS = ["EIO", "ENOSPC", "EACCES", "EMFILE"]
 
 
+def ops_of(case):
+    return case["setup"] + [case["victim"]]
+
+
 def leg_fault_injection(cases, flavour, tier, jobs=8):
     """cases: list of dict(setup, victim, key, data (or None), kind).  Inject every errno at the k-th
     occurrence of every syscall class during the victim; judge result and post-state."""
@@ -309,7 +347,7 @@ def leg_fault_injection(cases, flavour, tier, jobs=8):
             where = f"{en} injected into {cls.split(',')[0]} #{n} during `{case['victim'][:50]}`"
             res = toks(r.impl_lines[vi]) if vi < len(r.impl_lines) else ["missing"]
             sig = {"victim": case["victim"].split(" ")[0], "call": cls.split(",")[0], "errno": en}
-            fs_ = []
+            fs_ = trace_monitor(r, ops_of(case), where + ": ")
             if res[0] in ("panic", "hang", "missing") or r.killed:
                 fs_.append(Failure("panic_or_hang_on_fault", n, f"{where}: {res[0]}", sig=sig))
             il = r2.impl_lines
@@ -537,3 +575,111 @@ def leg_flavours(progs, flavours, jobs=16):
             samples.append({"forms": [f"{n}/{fl}" for _, n, fl, _, _ in runs], "ops": ops0[:5], "results": out0[:5]})
     return {"failures": failures, "disagreements": [], "evaluations": evaluations, "distinct_nontrivial": len(kinds),
             "samples": samples, "flavour_variants": len(variants)}
+
+
+# ---------------------------------------------------------------------------------------------
+# short writes (C13): RLIMIT_FSIZE makes a write(2) return short, the retry fail with EFBIG
+# ---------------------------------------------------------------------------------------------
+
+def _run_limited(flavour, ops, scratch, limit=None, reuse=True):
+    import subprocess, resource, signal
+
+    def pre():
+        signal.signal(signal.SIGXFSZ, signal.SIG_IGN)
+        if limit is not None:
+            resource.setrlimit(resource.RLIMIT_FSIZE, (limit, limit))
+    env = dict(os.environ)
+    if reuse:
+        env["DRIVE_REUSE"] = "1"
+    p = subprocess.run([C.drive_bin(flavour), scratch], input=("\n".join(ops) + "\n").encode(), stdout=subprocess.PIPE,
+                       stderr=subprocess.DEVNULL, env=env, preexec_fn=pre, timeout=120)
+    return p.stdout.decode(errors="replace").splitlines()
+
+
+def leg_short_write(r, flavour, n_cases):
+    """The index append (and the temp-file write) is cut short by a file-size limit: a real short
+    write followed by EFBIG.  The call must fail or succeed truthfully; nothing may be corrupted."""
+    failures, samples = [], []
+    evals, kinds = 0, set()
+    for ci in range(n_cases):
+        key = r.pick([b"sk", "clé".encode()])
+        old = b"old value"
+        new = G.data(r, r.pick([40, 3000])) + b"N"
+        fl = r.pick("sa")
+        victim_kind = r.pick(["write", "remove", "insert"])
+        setup = [w_oneshot("s", "sha256", b"other", b"other value"), w_oneshot("s", "sha256", key, old)]
+        if victim_kind == "write":
+            victim = w_oneshot(fl, "sha256", key, new)
+        elif victim_kind == "remove":
+            victim = f"remove {fl} c0 {hx(key)}"
+        else:
+            mtxt = hx(b'{"note":"x"}')
+            victim = f"index_insert {fl} c0 {hx(key)} sri={hx(L.sri_of('sha256', old).encode())} time=5 size=9 meta={mtxt} raw=-"
+        scratch = os.path.join(C.scratch_root(), f"short{next(E._counter)}")
+        shutil.rmtree(scratch, ignore_errors=True)
+        _run_limited(flavour, setup, scratch, reuse=False)
+        bpath = os.path.join(scratch, "c0", L.bucket_rel(key))
+        try:
+            bsize = os.path.getsize(bpath)
+        except OSError:
+            continue
+        # limits: cut the bucket append at several points; for a write also cut the temp file
+        limits = [bsize + k for k in (1, 30, 70, 150)]
+        if victim_kind == "write" and len(new) > 200:
+            limits.append(max(bsize + 150, len(new) // 2))
+        for lim in limits:
+            sc2 = scratch + f"-{lim}"
+            shutil.copytree(scratch, sc2, symlinks=True)
+            out = _run_limited(flavour, [victim], sc2, limit=lim)
+            probe = ["dump c0", f"metadata s c0 {hx(key)}", f"metadata a c0 {hx(key)}", f"read s c0 {hx(key)}",
+                     f"read a c0 {hx(b'other')}", victim, f"read s c0 {hx(key)}", "dump c0/tmp"]
+            il = _run_limited(flavour, probe, sc2)
+            shutil.rmtree(sc2, ignore_errors=True)
+            evals += 1
+            res = toks(out[0]) if out else ["missing"]
+            where = f"file-size limit {lim} (bucket was {bsize}) during `{victim[:50]}`"
+            sig = {"victim": victim_kind, "api": fl}
+            fs_ = []
+            kinds.add((victim_kind, fl, res[0] if res[0] != "err" else " ".join(res[:3]), lim - bsize if lim - bsize < 200 else "tmp"))
+            if res[0] in ("panic", "hang", "missing"):
+                fs_.append(Failure("panic_or_hang_on_fault", 0, f"{where}: {res[0]}", sig=sig))
+            if len(il) < len(probe):
+                fs_.append(Failure("unusable_after_fault", 0, f"{where}: inspection stopped", sig=sig))
+            else:
+                fs_ += content_valid_monitor(il[0], where)
+                m1, m2 = meta_of_line(il[1]), meta_of_line(il[2])
+                old_sri = L.sri_of("sha256", old)
+                new_state = {"write": L.sri_of("sha256", new), "remove": None, "insert": old_sri}[victim_kind]
+                for m in (m1, m2):
+                    got = "ERR" if m == "ERR" else (None if m is None else m["sri"])
+                    if res[0] == "ok":
+                        if got != new_state:
+                            fs_.append(Failure("false_success", 0, f"{where}: the call answered ok but a lookup shows {str(got)[:30]}", sig=sig))
+                    elif got not in (old_sri, new_state):
+                        fs_.append(Failure("mixed_or_broken_entry", 0, f"{where}: lookup after the failed call gives {str(got)[:30]}", sig=sig))
+                if m1 != m2:
+                    fs_.append(Failure("flavours_differ", 0, f"{where}: sync and async lookups differ afterwards", sig=sig))
+                ro = toks(il[4])
+                if ro[0] != "ok" or unhx(ro[1]) != b"other value":
+                    fs_.append(Failure("other_entry_affected", 0, f"{where}: another entry no longer reads its value", sig=sig))
+                retry = toks(il[5])
+                if retry[0] != "ok":
+                    fs_.append(Failure("retry_fails", 0, f"{where}: the same call without the limit -> {' '.join(retry[:3])}", sig=sig))
+                elif victim_kind == "write":
+                    rr_ = toks(il[6])
+                    if rr_[0] != "ok" or unhx(rr_[1]) != new:
+                        fs_.append(Failure("write_not_retrievable", 0, f"{where}: after the retry the data is not read back", sig=sig))
+                if norm_line(il[7]) != "ok":
+                    fs_.append(Failure("tmp_left", 0, f"{where}: temp file left behind", sig=sig))
+            for f in fs_:
+                f.replay_text = "\n".join(setup) + f"\n# next op run with RLIMIT_FSIZE={lim}, SIGXFSZ ignored:\n{victim}\n# then:\n" + "\n".join(probe) + "\n"
+            failures += fs_
+            if len(samples) < 3:
+                samples.append({"victim": victim[:80], "limit": lim, "bucket_size_before": bsize, "result": " ".join(res[:3])})
+        shutil.rmtree(scratch, ignore_errors=True)
+    return {"failures": failures, "disagreements": [], "evaluations": evals, "distinct_nontrivial": len(kinds),
+            "samples": samples, "short_writes": evals}
+
+
+def norm_line(l):
+    return E.norm(l)
